@@ -331,13 +331,16 @@ def _inline_named_tests(test, fn, depth=0):
         vals = [_inline_named_tests(v, fn, depth) for v in test.values]
         if all(a is b for a, b in zip(vals, test.values)):
             return test
-        new = ast.BoolOp(op=test.op, values=vals)
-        return ast.copy_location(new, test)
+        new = ast.copy_location(ast.BoolOp(op=test.op, values=vals), test)
+        new._parent = getattr(test, "_parent", None)   # scope look-ups walk up from here as they would from the original test
+        return new
     if isinstance(test, ast.UnaryOp) and isinstance(test.op, ast.Not):
         inner = _inline_named_tests(test.operand, fn, depth)
         if inner is test.operand:
             return test
-        return ast.copy_location(ast.UnaryOp(op=test.op, operand=inner), test)
+        new = ast.copy_location(ast.UnaryOp(op=test.op, operand=inner), test)
+        new._parent = getattr(test, "_parent", None)
+        return new
     if isinstance(test, ast.Name) and isinstance(test.ctx, ast.Load):
         st = _stores(fn)
         if st.get(test.id) != 1:
